@@ -9,6 +9,12 @@ pub(crate) fn mk_server_enc(inner: InnerCrypto, server_header: [u8; 5]) -> Serve
 pub(crate) fn any_server_enc() -> ServerEncrypterHalf {
     ServerEncrypterHalf { encrypt: ich::any_inner(), server_header: kani::any() }
 }
+pub(crate) fn any_server_enc_at(i: u8) -> ServerEncrypterHalf {
+    ServerEncrypterHalf { encrypt: ich::any_inner_at(i), server_header: kani::any() }
+}
+pub(crate) fn any_client_enc_at(i: u8) -> ClientEncrypterHalf {
+    ClientEncrypterHalf { encrypt: ich::any_inner_at(i) }
+}
 pub(crate) fn server_enc_inner(e: &ServerEncrypterHalf) -> &InnerCrypto {
     &e.encrypt
 }
